@@ -1,6 +1,8 @@
-From PV.Model Require Import Machine Pattern Unescape.
-From PV.Spec Require Import RustLiteral.
+From PV.Model Require Import Machine Pattern Unescape Codegen.
+From PV.Spec Require Import RustLiteral RustTokens.
 Require Import ExtrOcamlBasic.
 Extraction Language OCaml.
 Extraction "../ocaml/gen/unescape_model.ml" parse macro_model macro_model_orig parse_str_literal utf8_encode utf8_decode
-  normalize_crlf rust_token rust_unescape rust_lex_ok escape_not_supported_by_macro c17_oracle.
+  normalize_crlf rust_token rust_unescape rust_lex_ok escape_not_supported_by_macro c17_oracle
+  fmt_dec debug_atom debug_atoms format_string rust_format expansion macro_expansion
+  tokenize eval_tokens eval_expansion atom_eqb codegen_oracle.
